@@ -171,6 +171,11 @@ def check_integrate(prog, report, rules=('partition', 'precond', 'apex')):
             else:
                 ch = scheme_chain(t)
                 if ch is None:
+                    # a temporary holding the (mirrored) rule
+                    t2 = ast.Call(func=state.sub(t.func), args=t.args,
+                                  keywords=t.keywords)
+                    ch = scheme_chain(t2)
+                if ch is None:
                     raise AnalysisError('%s: unrecognised leaf `%s`' %
                                         (where, fn))
                 kind = ch
